@@ -274,9 +274,15 @@ class GraphBuilder:
         return all_nodes, all_vars
 
     @staticmethod
-    def _do_set_missing_names(nodes_or_vars: Iterable[NV], prefix: str) -> None:
-        """Sets the missing names for the given nodes or variables."""
+    def _do_set_missing_names(
+        nodes_or_vars: Iterable[NV], prefix: str, taken: Iterable[str] = ()
+    ) -> None:
+        """
+        Sets the missing names for the given nodes or variables. The names in
+        ``taken`` are not used.
+        """
         other = [nv.name for nv in nodes_or_vars if nv.name]
+        other.extend(taken)
         counter = -1
 
         for nv in nodes_or_vars:
@@ -292,8 +298,15 @@ class GraphBuilder:
     def _set_missing_names(self) -> GraphBuilder:
         """Sets the missing node and variable names."""
         nodes, _vars = self._all_nodes_and_vars()
-        self._do_set_missing_names(_vars, prefix="v")
-        self._do_set_missing_names(nodes, prefix="n")
+
+        # an automatic name must not shadow a name in the other namespace, position
+        # keys of the Goose interfaces are looked up among nodes and variables
+        self._do_set_missing_names(
+            _vars, prefix="v", taken=[node.name for node in nodes if node.name]
+        )
+        self._do_set_missing_names(
+            nodes, prefix="n", taken=[var.name for var in _vars if var.name]
+        )
         return self
 
     def add(
